@@ -63,7 +63,7 @@ def rule_regexcfg(E, R):
     rule = "R11-regexcfg"
     hs = E.hir(RX + "::syntax_config")
     if hs:
-        root, cc = chain_calls(tail(hs["body"]))
+        root, cc = chain_calls(fn_result(hs))
         d = dict((m, a) for m, a in cc)
         R.check(d.get("unicode") == [False], rule, RX + "::syntax_config", "unicode(false): byte-oriented, non-Unicode classes", str(cc), hs["span"])
         R.check(d.get("utf8") == [False], rule, RX + "::syntax_config", "utf8(false): patterns may match invalid UTF-8", str(cc), hs["span"])
@@ -74,7 +74,7 @@ def rule_regexcfg(E, R):
         R.cannot(rule, RX + "::syntax_config", "anchor not found")
     hm = E.hir(RX + "::meta_config")
     if hm:
-        root, cc = chain_calls(tail(hm["body"]))
+        root, cc = chain_calls(fn_result(hm))
         d = dict((m, a) for m, a in cc)
         R.check(d.get("match_kind") == ["LeftmostFirst"], rule, RX + "::meta_config", "leftmost-first match semantics", str(d.get("match_kind")), hm["span"])
         R.check(d.get("utf8_empty") == [False], rule, RX + "::meta_config", "utf8_empty(false): empty matches may split code points (bytes)", str(d.get("utf8_empty")), hm["span"])
